@@ -4,6 +4,7 @@
 Require Extraction.
 Require Import ExtrOcamlBasic.
 From Moss Require Import FlatRun TreeRun Index OpenDir Codec FileFormat Previous Faults Sync Iterator History Refs Crash IteratorIncl TreeInv.
+From Moss Require Owners OwnersScenarios.
 Extraction Language OCaml.
 Extraction "model.ml" fstep fcheck finit calc_partial_start calc_target_top_level
   trstep trinit model_canon canonical store_canon reads_of ref_reads rnode_eqb t_coll_get
@@ -11,4 +12,16 @@ Extraction "model.ml" fstep fcheck finit calc_partial_start calc_target_top_leve
   scan_footer_bytes scan_footer_repaired_bytes roundtrip_check Codec.encode Codec.decode
   pageAlignCeil pageAlignFloor pageOffset load_segment persist_segment persist_segment_loc mutate_guard
   h_append h_compact_partial h_compact_full h_revert h_previous h_walk llv sget sort_seg run_round
-  run_iter run_iter_pre_fix run_spec live_range iter_list sy_step sy_init sy_run check_hist snap_atomic snap_realtime refs_check.
+  run_iter run_iter_pre_fix run_spec live_range iter_list sy_step sy_init sy_run check_hist snap_atomic snap_realtime refs_check
+  Owners.run_events OwnersScenarios.run_nfiles OwnersScenarios.sc_append_rounds_snapshots OwnersScenarios.sc_heap_iter_snapshot_closed_first
+  OwnersScenarios.sc_force_compaction_child OwnersScenarios.sc_partial_compaction_cached
+  OwnersScenarios.sc_drop_recreate_persister_held OwnersScenarios.sc_history_get_idle_cycle
+  OwnersScenarios.sc_iter_kinds_fully_persisted OwnersScenarios.sc_store_snapshot_iterators
+  OwnersScenarios.sc_handles_between_gates OwnersScenarios.sc_child_only_full_compaction
+  OwnersScenarios.sc_drop_only_child_new_file OwnersScenarios.sc_iterator_error_return
+  OwnersScenarios.sc_close_collection_before_handles.
+
+(* The persistence-round control-flow model (StoreOps.v) is extracted into a file of
+   its own: its names (run, init, step, file, RFull ...) would clash with the flat model. *)
+From Moss Require StoreOps.
+Extraction "opsmodel.ml" StoreOps.predict StoreOps.step_ix.
